@@ -26,7 +26,7 @@ RULE = ('Healthy generated rule files into which freely ill-typed / partial ("wi
         'item AND >=1 other rule/view applies; distinct by hash of the case.')
 ASSUMPTIONS = ['which items "fail" is observed through the public evaluate_transaction/evaluate API raising ExpressionError',
                'string literals inside dynamic tags contain no parentheses or commas (documented tag-splitting rule)']
-REQUIRED_CLASSES = ['fail_match', 'fail_let', 'fail_field', 'fail_tag', 'fail_variable', 'fail_transform', 'fail_view_filter',
+REQUIRED_CLASSES = ['csv_unusable_pattern_row', 'fail_match', 'fail_let', 'fail_field', 'fail_tag', 'fail_variable', 'fail_transform', 'fail_view_filter',
                     'err_TypeError', 'err_ExpressionError', 'csv_pipeline', 'never_evaluable_rule']
 
 
@@ -159,9 +159,68 @@ def load_or_none(text, mode='first_match'):
         return None
 
 
+# ------------------------------------------------------------------------------------------------
+# legacy CSV rule files: a row whose pattern is no regular expression is just that row
+# ------------------------------------------------------------------------------------------------
+CSV_BAD = lang.BAD_REGEX + ['a{4294967296}', 'x{99999999999,}', '(?P<n>a)(?P<n>b)', '(?<=a*)b', '\\1(a)', '[z-a]', '(?i', 'a**']
+
+
+@st.composite
+def csvbad_case(draw):
+    from tv import csvrules
+    good = [r for r in draw(csvrules.csv_file(max_rules=4, escapes=True, quotes=True)) if not csvrules.looks_like_expression(r['pattern']) and not r['pattern'].startswith('#')]
+    good.append({'pattern': 'NETFLIX', 'mods': [], 'merchant': 'Netflix', 'category': 'Subscriptions', 'subcategory': 'Streaming', 'tags': ['recurring']})
+    bad = [{'pattern': draw(st.sampled_from(CSV_BAD)), 'mods': draw(st.lists(csvrules.amount_mod, max_size=1)), 'merchant': 'Broken', 'category': draw(st.sampled_from(['Broken Cat', ''])),
+            'subcategory': '', 'tags': ['broken']} for _ in range(draw(st.integers(1, 2)))]
+    pos = [draw(st.integers(0, len(good))) for _ in bad]
+    txns = [draw(lang.txn_case) for _ in range(2)] + [dict(draw(lang.txn_case), description='NETFLIX.COM aaa b')]
+    return {'kind': 'csvbad', 'good': good, 'bad': bad, 'pos': pos, 'txns': txns}
+
+
+def check_csvbad(case, stats: Stats):
+    import re as _re
+    from tv import csvrules
+    from tally.merchant_utils import load_merchant_rules, normalize_merchant
+    really_bad = []
+    for b in case['bad']:
+        try:
+            _re.compile(b['pattern'], _re.IGNORECASE)
+        except (_re.error, OverflowError, RecursionError):
+            really_bad.append(b)
+    if not really_bad:
+        return
+    rows = list(case['good'])
+    for b, p_ in zip(case['bad'], case['pos']):
+        rows.insert(min(p_, len(rows)), b)
+    outs = []
+    for variant in (rows, [r for r in rows if r not in really_bad]):
+        text = csvrules.render_csv(variant)
+        obs.clear_caches()
+        path = obs.write_rules(text, 'merchant_categories.csv')
+        try:
+            rules = load_merchant_rules(path)
+        except Exception as e:
+            raise Violation(f'load_merchant_rules raised {type(e).__name__}: {e}\n{text}', case, 'csv-load')
+        res = []
+        for tc in case['txns']:
+            t = lang.mk_txn(R.nonzero(tc))
+            try:
+                m, c, s_, info = normalize_merchant(t['description'], rules, amount=t['amount'], txn_date=t.get('date'), data_source=t.get('source'))
+            except Exception as e:
+                raise Violation(f'normalize_merchant raised {type(e).__name__}: {e} for {tc["description"]!r} because of a CSV row whose pattern is no regular expression\n{text}',
+                                case, 'crash:' + type(e).__name__)
+            res.append((m, c, s_, tuple(sorted((info or {}).get('tags', []) or []))))
+        outs.append(res)
+    if outs[0] != outs[1]:
+        raise Violation(f'with the unusable CSV row(s) {[b["pattern"] for b in really_bad]} the outcome is {outs[0]}, without them {outs[1]}\n{csvrules.render_csv(rows)}', case, 'removal:csv-row')
+    stats.case(jhash(case), True, {'csv_unusable_pattern_row'}, sample={'bad': [b['pattern'] for b in really_bad]} if len(stats.samples) < 3 else None)
+
+
 def check(case, stats: Stats):
     if case['kind'] == 'views':
         return check_views(case, stats)
+    if case['kind'] == 'csvbad':
+        return check_csvbad(case, stats)
     from tally import expr_parser as ep
     rf = case['rf']
     text = R.render_file(rf)
@@ -465,13 +524,13 @@ def replay(case):
 
 def shards(tier):
     n = 250 if tier == 'quick' else 3000
-    return [('rules', n)] * 13 + [('views', n * 4)] * 3
+    return [('rules', n)] * 12 + [('views', n * 4)] * 3 + [('csvbad', n * 4)]
 
 
 def run_shard(kind, n, seed, tier):
     s = Stats()
     try:
-        campaign(rules_case() if kind == 'rules' else views_case, check, n, seed, s, tier)
+        campaign(rules_case() if kind == 'rules' else (csvbad_case() if kind == 'csvbad' else views_case), check, n, seed, s, tier)
     finally:
         obs.cleanup()
     return s
